@@ -39,7 +39,8 @@ class BuildModel:
         self.run_obj = mk("pf", self.selfobj, self.i_run)
         # calls of interest
         self.asm_new = [(b, t) for b, t in f.calls() if callee_of(t) == "df::assembler::Assembler::new"]
-        self.clear = [(b, t) for b, t in f.calls() if callee_of(t) == MB + "::clear_data"]
+        self.wipe_fns = wipe_functions(prog)
+        self.clear = [(b, t) for b, t in f.calls() if callee_of(t) in self.wipe_fns and covering(self.wipe_fns[callee_of(t)][1])]
         self.encodes = [(b, t) for b, t in f.calls() if (callee_of(t) or "").startswith("msg::") and (callee_of(t) or "").endswith(("::encode", "::generate"))]
         self.puts = [(b, t) for b, t in f.calls() if callee_of(t) == "df::assembler::Assembler::put"]
         self.offsets = [(b, t) for b, t in f.calls() if callee_of(t) == "df::assembler::Assembler::offset"]
@@ -59,6 +60,7 @@ class BuildModel:
                     v = fa.rv_term(s["rv"], (b, i))
                     if v.op == "agg" and v.args[2] == "Ok":
                         self.oks.append((b, i, v, s))
+        self.inline_wipes = [w for w in find_wipes(prog, f, fa, self.iv, self.data_obj) if covering(w)]
         self.ok = True
 
     def loc(self, line=None):
@@ -264,6 +266,86 @@ def _root_arg(t):
     return x.args[1] if x.op == "arg" else None
 
 
+def find_wipes(prog, g, ga, giv, data_obj):
+    """Program points of g that zero a contiguous range of the builder's buffer:
+       W2  <[u8]>::fill(&mut data[lo..hi], 0)                      -> block of the call
+       W3  for d in data[lo..hi].iter_mut() { *d = 0 }  (no break)   -> loop header block
+    Returns [{'block', 'lo': (a,b), 'hi': (a,b), 'kind'}]"""
+    out = []
+    for b, t in g.calls():
+        if callee_of(t) == "core::slice::<impl [T]>::fill":
+            a = ga.call_args(b)
+            sl = as_slice(a[0])
+            if sl is not None and sl[0] is data_obj and is_const(a[1]) and const_val(a[1]) == 0:
+                lo = giv.interval(sl[1], b) if sl[1] is not None else (0, 0)
+                hi = giv.interval(sl[2], b) if sl[2] is not None else (1029, 1029)
+                out.append({"block": b, "lo": lo, "hi": hi, "kind": "fill"})
+    loops = g.loops()
+    stores = [e for e in ga.mem_events() if e[0] == "store"]
+    for h, body in loops.items():
+        inl = [e for e in stores if e[1] in body]
+        if len(inl) != 1:
+            continue
+        _, eb, ei, s = inl[0]
+        v = ga.rv_term(s["rv"], (eb, ei))
+        P = ga.objpath(s["place"], (eb, ei))
+        ptr = P.args[0] if P.op == "mem" else None
+        if not (ptr is not None and ptr.op == "field" and ptr.args[0].op == "downcast" and ptr.args[0].args[0].op == "call"
+                and ptr.args[0].args[0].args[0] in libmodel.FINITE_NEXT and is_const(v) and const_val(v) == 0):
+            continue
+        nxt = ptr.args[0].args[0]
+        src = libmodel.iterator_source(nxt, ga)
+        if src is None:
+            continue
+        x = src[0]
+        while x.op == "call" and x.args[0] in (libmodel.INTO_ITER, "core::slice::<impl [T]>::iter_mut"):
+            x = x.args[1][0]
+        sl = as_slice(x)
+        if sl is None or sl[0] is not data_obj:
+            continue
+        # no early exit: the only edge leaving the loop starts at the block that switches on next()'s discriminant
+        exits = [(x_, y) for x_ in body for y in g.succ(x_) if y not in body and g.term(y)["k"] != "unreachable"]
+        okexit = len(exits) == 1 and g.term(exits[0][0])["k"] == "switch"
+        # the store runs in every iteration: its block dominates every latch
+        latches = [x_ for x_ in body if h in g.succ(x_)]
+        okstore = all(g.dominates(eb, l) for l in latches)
+        if okexit and okstore:
+            lo = giv.interval(sl[1], 0) if sl[1] is not None else (0, 0)
+            hi = giv.interval(sl[2], 0) if sl[2] is not None else (1029, 1029)
+            out.append({"block": h, "lo": lo, "hi": hi, "kind": "loop", "exit_from": exits[0][0]})
+    return out
+
+
+def covering(w):
+    lo, hi = w["lo"], w["hi"]
+    return lo is not None and hi is not None and 1 <= lo[0] and lo[1] <= 3 and hi[0] >= 1026
+
+
+def wipe_functions(prog):
+    """MessageBuilder methods whose whole effect is one covering wipe of self.data (today: clear_data)."""
+    out = {}
+    adt = prog.adts.get(MB)
+    if adt is None:
+        return out
+    fields = [x["name"] for x in adt["variants"][0]["fields"]]
+    if "data" not in fields:
+        return out
+    for p, g in prog.fns.items():
+        if not p.startswith(MB + "::") or g.rec.get("argc") != 1:
+            continue
+        ty = g.locals[1] if len(g.locals) > 1 else None
+        if not (ty and ty.get("k") == "ref" and ty.get("mut")):
+            continue
+        ga = FA(g, prog)
+        giv = Intervals(ga, prog)
+        data_obj = mk("pf", mk("mem", ga.start_val(1, 0)), fields.index("data"))
+        ws = find_wipes(prog, g, ga, giv, data_obj)
+        stores = [e for e in ga.mem_events() if e[0] == "store"]
+        if len(ws) == 1 and len(stores) <= 1:
+            out[p] = (g, ws[0])
+    return out
+
+
 def rules_typestate(prog, res, m=None, tag="build"):
     """C12: T-new, T-gate, T-set, T-clear."""
     if m is None:
@@ -274,9 +356,9 @@ def rules_typestate(prog, res, m=None, tag="build"):
     # ---- T-gate: every path to Assembler::new passes the wipe or the has_run == false edge
     okg = False
     d = ""
-    if len(m.asm_new) == 1 and len(m.clear) == 1:
+    wipe_blocks = [b for b, t in m.clear] + [w["block"] for w in m.inline_wipes]
+    if len(m.asm_new) == 1 and wipe_blocks:
         ab = m.asm_new[0][0]
-        cb = m.clear[0][0]
         # edges where has_run (entry value) is known false
         run0 = mk("memval", m.run_obj)
         false_edges = []
@@ -287,13 +369,14 @@ def rules_typestate(prog, res, m=None, tag="build"):
                     for g in fa.edge_guard(b, s):
                         if g[0] is run0 and ((g[1] == "eq" and g[2] == 0) or (g[1] == "ne" and g[2] == (1,))):
                             false_edges.append((b, s))
-        # clear_data must be applied to self
-        ca = fa.call_args(cb)
-        self_ok = ca[0].op == "ref" and ca[0].args[0] is m.selfobj
-        reach = f.reach_from(0, removed_edges=false_edges, removed_blocks=[cb])
+        # a wipe function must be applied to self
+        self_ok = True
+        for cb, t in m.clear:
+            ca = fa.call_args(cb)
+            self_ok = self_ok and ca[0].op == "ref" and ca[0].args[0] is m.selfobj
+        reach = f.reach_from(0, removed_edges=false_edges, removed_blocks=wipe_blocks)
         okg = ab not in reach and self_ok and bool(false_edges)
-        # and nothing writes has_run / data before the gate decision
-        d = "has_run==false edges: %s ; wipe block bb%d ; assembler reachable without either: %s" % (false_edges, cb, ab in reach)
+        d = "has_run==false edges: %s ; wipe blocks %s ; assembler reachable without either: %s" % (false_edges, ["bb%d" % b for b in wipe_blocks], ab in reach)
     res.ob("T-gate", "%s | the buffer is wiped before reuse unless the builder is provably fresh (has_run == false)" % tag, okg, d, m.loc(), sample=d)
     # ---- T-set: has_run = true dominates Assembler::new, is the only has_run store
     runstores = [(eb, ei, v) for eb, ei, P, v, s in m.stores if P is m.run_obj]
@@ -342,40 +425,24 @@ def rules_new_clear(prog, res):
                 if s["k"] == "assign" and s["rv"]["k"] == "aggregate" and s["rv"].get("path") == MB:
                     builders.add(p)
     res.ob("T-new", "crate | MessageBuilder values are built only by MessageBuilder::new", builders == {MB + "::new"}, str(sorted(builders)))
-    g = prog.fn(MB + "::clear_data")
-    if g is None:
-        res.missing("T-clear", MB + "::clear_data")
+    wf = wipe_functions(prog)
+    bf = prog.fn(BUILD)
+    called = set()
+    if bf is not None:
+        called = {callee_of(t) for b, t in bf.calls() if callee_of(t) in wf}
+    if not called and bf is not None:
+        # no wipe function: the wipe must be inline in build_message (checked by T-gate through find_wipes)
+        bfa = FA(bf, prog)
+        adt = prog.adts.get(MB)
+        fields = [x["name"] for x in adt["variants"][0]["fields"]]
+        data_obj = mk("pf", mk("mem", bfa.start_val(1, 0)), fields.index("data"))
+        ws = find_wipes(prog, bf, bfa, Intervals(bfa, prog), data_obj)
+        ok = any(covering(w) for w in ws)
+        res.ob("T-clear", "wipe | zeroes a range that covers the payload window data[3..1026] and leaves data[0]", ok,
+               "no wipe function is called from build_message; inline wipes: %s" % [(w["kind"], w["lo"], w["hi"]) for w in ws], bf.loc)
         return
-    res.fn(g)
-    ga = FA(g, prog)
-    giv = Intervals(ga, prog)
-    adt = prog.adts.get(MB)
-    fields = [x["name"] for x in adt["variants"][0]["fields"]]
-    data_obj = mk("pf", mk("mem", ga.start_val(1, 0)), fields.index("data"))
-    stores = [e for e in ga.mem_events() if e[0] == "store"]
-    ok = False
-    d = "stores=%d" % len(stores)
-    if len(stores) == 1 and len(g.loops()) == 1:
-        _, eb, ei, s = stores[0]
-        v = ga.rv_term(s["rv"], (eb, ei))
-        P = ga.objpath(s["place"], (eb, ei))
-        # P = *item where item = next(&mut iter)@Some.0 ; iter = into_iter(iter_mut(slice))
-        ptr = P.args[0] if P.op == "mem" else None
-        if ptr is not None and ptr.op == "field" and ptr.args[0].op == "downcast" and ptr.args[0].args[0].op == "call" \
-                and ptr.args[0].args[0].args[0] in libmodel.FINITE_NEXT and is_const(v) and const_val(v) == 0:
-            src = libmodel.iterator_source(ptr.args[0].args[0], ga)
-            if src is not None:
-                x = src[0]
-                while x.op == "call" and x.args[0] in (libmodel.INTO_ITER, "core::slice::<impl [T]>::iter_mut"):
-                    x = x.args[1][0]
-                sl = as_slice(x)
-                if sl is not None and sl[0] is data_obj:
-                    lo = giv.interval(sl[1], 0) if sl[1] is not None else (0, 0)
-                    hi = giv.interval(sl[2], 0) if sl[2] is not None else (1029, 1029)
-                    d = "wipes data[%s..%s]" % (lo, hi)
-                    # must cover the assembler window [3, 1026) and the header/crc bytes are rewritten anyway; must not touch byte 0
-                    ok = lo is not None and hi is not None and 1 <= lo[0] and lo[1] <= 3 and hi[0] >= 1026
-                    # every iteration stores: the store block is dominated by the Some arm and post-dominates it (single block body)
-                    h = list(g.loops().keys())[0]
-                    ok = ok and eb in g.loops()[h]
-    res.ob("T-clear", "clear_data | zeroes a range that covers the payload window data[3..1026] and leaves data[0]", ok, d, g.loc, sample=d)
+    for p in sorted(called):
+        g, w = wf[p]
+        res.fn(g)
+        d = "%s wipes data[%s..%s] (%s)" % (p.rsplit("::", 1)[1], w["lo"], w["hi"], w["kind"])
+        res.ob("T-clear", "%s | zeroes a range that covers the payload window data[3..1026] and leaves data[0]" % p.rsplit("::", 1)[1], covering(w), d, g.loc, sample=d)
